@@ -1,7 +1,7 @@
 """Concurrent scenarios: generated projects whose scripts record work sections, real runs at -jN (own or
 inherited jobserver, one or several top-level invocations) with REDO_VERIF_TRACE, and trace parsing."""
 import os, random, re, signal, subprocess, time
-from proj import Project, clean_env
+from proj import Project, clean_env, kill_orphans
 from common import *
 
 
@@ -123,10 +123,7 @@ def run_cmds(pr, cmds, env=None, timeout=60, stagger=0.0, pass_fds=()):
             res.append(Run(-999, out.decode("utf-8", "replace"), err.decode("utf-8", "replace") + "\n[snapshot]\n" + snap, None, None, time.time() - t0, True))
     # make sure nothing of the scenario survives
     for p in procs:
-        try:
-            os.killpg(p.pid, signal.SIGKILL)
-        except ProcessLookupError:
-            pass
+        kill_orphans(p.pid)
     tr, wk = parse_trace(trace), parse_work(work)
     for r in res:
         r.trace, r.work = tr, wk
